@@ -814,12 +814,19 @@ class NF:
                 tail = b.get("tail")
                 lets = [x for x in stmts if x.get("k") == "Let"]
                 others = [x for x in stmts if x.get("k") in ("Semi", "Expr")] + ([{"k": "Expr", "e": tail}] if tail else [])
-                if len(others) != 1 or any(self._mutations(lid, [l]) for l in lets):
+                if not others or any(self._mutations(lid, [l]) for l in lets):
                     return None
                 cur_env = cur_env.child()
                 for l in lets:
                     self.bind_let(l, cur_env)
-                body = H.strip(others[0]["e"])
+                # statements that only skip the element (`if !wanted(x) { continue; }`) in front of the push are conditions of it
+                for o in others[:-1]:
+                    dc = diverge_condition(self, o["e"], cur_env)
+                    if dc is None or self._mutations(lid, [o["e"]]):
+                        return None
+                    self._push_conds.append(("not", dc))
+                    conditional = True
+                body = H.strip(others[-1]["e"])
                 continue
             if k == "If" and not body.get("else"):
                 c = H.strip(body["cond"])
@@ -1742,6 +1749,8 @@ class Extractor:
                 return True
             if x.get("k") in ("MethodCall", "Call") and (H.callee_path(x) in self.writer_fns):
                 return True
+            if x.get("k") == "MethodCall" and any(i_ in self.writer_fns for i_ in self.trait_impls(H.callee_path(x) or "")):
+                return True       # a writer called through a trait of the crate
             if x.get("k") == "MethodCall" and x.get("name") in ("push_str", "push") and _plain_local(x["recv"]) in self._buffers:
                 return True
             if x.get("k") == "MethodCall" and x.get("name") in ("push_str", "push") and "std::string::String" in (H.strip(x["recv"]).get("ty") or "") \
